@@ -93,6 +93,23 @@ def build() -> Check:
     ck.floor("cells", n_cells, 25)
     ck.floor("updates_judged", n_updates, 60)
 
+    if ck.tier == "thorough":
+        # validity of the concatenation across invocations: compose the cells through every crash point and backend transition
+        from sa.compose import explore
+
+        for name, ci in pm.executors.items():
+            ot = pm.executor_optype(ci)
+            all_cells = {s_: pm.run_cell(ci, s_, faults=True) for s_ in [ABSENT, *__import__("sa.common", fromlist=["APPLICABLE"]).APPLICABLE[ot]]}
+            modes = [(None, None)]
+            if ot == "STEP" and "Step" in name and "Condition" not in name:
+                modes = [("config.step_semantics=?StepSemantics", m) for m in prog.cls("config", "StepSemantics").enum_members]
+            for mk, m in modes:
+                seen, findings, n_steps = explore(ot, all_cells, mk, m)
+                life = [f for f in findings if f[0] == "lifecycle"
+                        and not (ot == "CONTEXT" and "holds as SUCCEEDED" in f[1])]  # replayed summarised context with a non-deterministic body
+                ck.ob("R6.lifecycle-across-invocations", cls_construct(ci), not life,
+                      (life[0][1] + " | witness: " + " / ".join(life[0][2])[-400:]) if life else f"{len(seen)} history states, {n_steps} transitions", cell=m or "")
+
     # R4 execution record ---------------------------------------------------------------------
     wt = wrapper_traces(pm, faults=True)
     wrapper = prog.func("execution", "durable_execution.<locals>.wrapper")
